@@ -525,6 +525,18 @@ func (v *env) stmts(l []ast.Stmt, result string) string {
 }
 
 func main() {
+	if len(os.Args) == 5 && os.Args[1] == "locktrace" {
+		var spec lockSpec
+		b, err := os.ReadFile(os.Args[3])
+		if err != nil {
+			fail("%v", err)
+		}
+		if err := json.Unmarshal(b, &spec); err != nil {
+			fail("%v", err)
+		}
+		runLockTrace(os.Args[2], spec, os.Args[4])
+		return
+	}
 	if len(os.Args) < 4 {
 		fail("usage: gotrans <repo> <targets.json> <out.v>")
 	}
